@@ -19,6 +19,7 @@ macro_rules! line_on_image {
             let line = Line::from_endpoints(Point::from_yx(sy, sx), Point::from_yx(ey, ex));
             draw_line(img.view_mut(), line, 1u8, 1);
             kani::cover!(true, "drawing returned");
+            let mut some_pixel_drawn = false;
             if $h > 0 && $w > 0 {
                 let cy0 = sy.clamp(0, $h as i32 - 1);
                 let cy1 = ey.clamp(0, $h as i32 - 1);
@@ -29,8 +30,7 @@ macro_rules! line_on_image {
                 let y: usize = kani::any();
                 let x: usize = kani::any();
                 kani::assume(y < $h && x < $w);
-                // (a line on a 1x1 image has equal clamped endpoints and draws nothing)
-                kani::cover!(img[[y, x]] != 0 || !$draws, "some pixel drawn");
+                some_pixel_drawn = img[[y, x]] != 0;
                 if img[[y, x]] != 0 {
                     assert!(
                         (y as i32) >= ylo && (y as i32) <= yhi && (x as i32) >= xlo && (x as i32) <= xhi,
@@ -38,6 +38,8 @@ macro_rules! line_on_image {
                     );
                 }
             }
+            // (a line on a 0x0 or 1x1 image has equal clamped endpoints and draws nothing)
+            kani::cover!(some_pixel_drawn || !$draws, "some pixel drawn");
         }
     };
 }
@@ -139,7 +141,6 @@ macro_rules! stroke_rect_inside {
     };
 }
 stroke_rect_inside!(c36_t_stroke_rect_inside_3x3, 3, 1, 11);
-stroke_rect_inside!(c36_t_stroke_rect_inside_4x4, 4, 2, 18);
 
 /// Cheap quick-tier variant of the stroke_rect check: 3x4 image, width 1,
 /// rectangle with symbolic top-left corner and fixed bottom-right corner (3,4)
